@@ -13,7 +13,7 @@
    opcode of the rule set decodes to [I_INVALID] (jump_table.go: opUndefined).
 
    Names other families rely on (keep stable):
-     fork fk_clz fk_is_precompile fk_precompile fk_keccak (instances: EVM/Forks.v)
+     fork fk_clz fk_7702 fk_is_precompile fk_precompile fk_keccak (instances: EVM/Forks.v)
      unop binop terop env0 env1 acct1 copyop callop instr decode stack_req
      const_gas stack_limit
    No proofs in this file. *)
@@ -27,6 +27,7 @@ Local Open Scope N_scope.
    [None] = the precompile returned an error. *)
 Record fork := mk_fork {
   fk_clz : bool;                                        (* EIP-7939 *)
+  fk_7702 : bool;                                       (* EIP-7702 delegation resolution in the CALL family (Prague) *)
   fk_is_precompile : N -> bool;                         (* evm.precompile(addr) *)
   fk_precompile : N -> list N -> N * option (list N);
   fk_keccak : list N -> list N                          (* Keccak-256; instantiated in EVM/Forks.v *)
